@@ -158,17 +158,37 @@ CLIENT_ENVS = {
 }
 
 
+def _final_filter_args(assigns):
+    """the closing `cipherSuites = CipherSuite.filterForVersion(cipherSuites, minVersion=E1, maxVersion=E2)` of
+    _serverGetClientHello: returns (E1, E2) as source text; E in {'version', 'self.version'} (anything else: Refuse)"""
+    if len(assigns) != 2 or tuple(assigns[0][0]) != () or assigns[0][1] != '[]' or tuple(assigns[1][0]) != ():
+        raise Refuse('_serverGetClientHello assigns cipherSuites in an unexpected way: %r' % [v for _, v in assigns])
+    try:
+        call = ast.parse(assigns[1][1], mode='eval').body
+    except SyntaxError:
+        raise Refuse('unparsable final filter')
+    if not (isinstance(call, ast.Call) and ast.unparse(call.func) == 'CipherSuite.filterForVersion'
+            and len(call.args) == 1 and ast.unparse(call.args[0]) == 'cipherSuites'
+            and sorted(k.arg for k in call.keywords) == ['maxVersion', 'minVersion']):
+        raise Refuse('_serverGetClientHello closes the candidate list with %r' % assigns[1][1])
+    kw = {k.arg: ast.unparse(k.value) for k in call.keywords}
+    for v in kw.values():
+        if v not in ('version', 'self.version'):
+            raise Refuse('filterForVersion argument %r is not version / self.version' % v)
+    return kw['minVersion'], kw['maxVersion']
+
+
 def server_candidates(CS, settings, version, cred, comp):
     """_serverGetClientHello: the suites a server with these credentials may select at `version`
-    (client offers everything, all group intersections non-empty)"""
+    (client offers everything, all group intersections non-empty).  `self.version` at that point is the
+    record-layer version min((3,3), version) the same function has just set."""
     steps, assigns = comp
-    expect = [((), '[]'), ((), 'CipherSuite.filterForVersion(cipherSuites, minVersion=version, maxVersion=version)')]
-    if [(tuple(c), v) for c, v in assigns] != expect:
-        raise Refuse('_serverGetClientHello assigns cipherSuites in an unexpected way: %r' % [v for _, v in assigns])
+    e_min, e_max = _final_filter_args(assigns)
     env = dict(SERVER_ENVS[cred])
     env.update({'ecGroupIntersect': True, 'ffGroupIntersect': True, 'settings.pskConfigs': cred == 'psk'})
     out = _run_composition(CS, steps, env, settings, version)
-    return CS.filterForVersion(out, minVersion=version, maxVersion=version)
+    val = {'version': version, 'self.version': min((3, 3), version)}
+    return CS.filterForVersion(out, minVersion=val[e_min], maxVersion=val[e_max])
 
 
 def client_offer(CS, settings, kind, comp):
@@ -233,6 +253,169 @@ def collect():
         return (seen[0], len(getattr(enc, 'key', b'')), getattr(enc, 'name', None),
                 int(getattr(enc, 'tagLength', 0)), len(rl._pendingWriteState.fixedNonce))
 
+    import hashlib as _hl
+    import hmac as _hm
+    import warnings
+    session_mod = importlib.import_module('tlslite.session')
+    hh_mod = importlib.import_module('tlslite.handshakehashes')
+
+    def hkdf_label(secret_, label, length, hname):
+        """RFC 8446 7.1 HKDF-Expand-Label with empty context, stdlib only"""
+        full = b"tls13 " + label
+        info = bytes([length >> 8, length & 0xff, len(full)]) + full + b"\x00"
+        out, block, c = b"", b"", 1
+        while len(out) < length:
+            block = _hm.new(bytes(secret_), block + info + bytes([c]), getattr(_hl, hname)).digest()
+            out += block
+            c += 1
+        return out[:length]
+
+    def which_hash(secret_, label, value):
+        hits = [h for h in ('sha256', 'sha384') if hkdf_label(secret_, label, len(value), h) == bytes(value)]
+        return hits[0] if len(hits) == 1 else None
+
+    def key_update(sid):
+        """RecordLayer._calcTLS1_3KeyUpdate and the sender/reciever wrappers, hashes identified from the outputs"""
+        rl = RL(None)
+        rl.version = (3, 4)
+        app = bytearray(range(100, 148))
+        r = safe(rl._calcTLS1_3KeyUpdate, sid, app)
+        if r[0] != 'ok':
+            return None
+        new, st = r[1]
+        enc = st.encContext
+        key = getattr(enc, 'key', None)
+        if key is None or st.fixedNonce is None:
+            return None
+        core = (which_hash(app, b"traffic upd", new), len(new), which_hash(new, b"key", key), len(key),
+                which_hash(new, b"iv", st.fixedNonce), len(st.fixedNonce), getattr(enc, 'name', None),
+                int(getattr(enc, 'tagLength', 0)))
+        roles = []
+        cl, sr = bytearray(range(1, 49)), bytearray(range(51, 99))
+        for fn in ('calcTLS1_3KeyUpdate_sender', 'calcTLS1_3KeyUpdate_reciever'):
+            for client in (True, False):
+                rl2 = RL(None)
+                rl2.version = (3, 4)
+                rl2.client = client
+                rr = safe(getattr(rl2, fn), sid, cl, sr)
+                if rr[0] != 'ok':
+                    roles.append(None)
+                    continue
+                ncl, nsr = rr[1]
+                if (ncl == cl) == (nsr == sr):
+                    roles.append(None)
+                elif ncl != cl:
+                    roles.append(which_hash(cl, b"traffic upd", ncl))
+                else:
+                    roles.append(which_hash(sr, b"traffic upd", nsr))
+        return core, roles
+
+    LABELS = [b"key expansion", b"master secret", b"extended master secret", b"client finished", b"server finished"]
+
+    def mk_hh():
+        h = hh_mod.HandshakeHashes()
+        h.update(bytearray(b"\x01\x00\x00\x04abcd"))
+        return h
+
+    def label_kind(ver, sid, label):
+        """which PRF (and transcript digest) calc_key applies for this label; (3,0)+EMS is not defined: skipped"""
+        n = 12 if label.endswith(b"finished") else 48
+        r = safe(mathtls.calc_key, ver, secret, sid, label, handshake_hashes=mk_hh(), client_random=cr,
+                 server_random=sr, output_length=n)
+        if r[0] != 'ok':
+            return None
+        out = bytes(r[1])
+        hh = mk_hh()
+
+        def seed(kind):
+            if label == b"key expansion":
+                return sr + cr
+            if label == b"master secret":
+                return cr + sr
+            if kind == 'md5sha1':
+                return hh.digest('md5') + hh.digest('sha1') if label == b"extended master secret" else hh.digest()
+            return hh.digest(kind)
+        ref = {}
+        if label in (b"key expansion", b"master secret"):
+            ref['ssl3'] = lambda: mathtls.PRF_SSL(secret, seed('ssl3'), n)
+        elif label.endswith(b"finished"):
+            ref['ssl3'] = lambda: hh.digestSSL(secret, b"CLNT" if label.startswith(b"client") else b"SRVR")
+        ref['md5sha1'] = lambda: mathtls.PRF(secret, label, seed('md5sha1'), n)
+        ref['sha256'] = lambda: mathtls.PRF_1_2(secret, label, seed('sha256'), n)
+        ref['sha384'] = lambda: mathtls.PRF_1_2_SHA384(secret, label, seed('sha384'), n)
+        hits = [k for k, f in ref.items() if bytes(f()) == out]
+        return hits[0] if len(hits) == 1 else None
+
+    def exporter_kind(ver, sid):
+        """TLSConnection.keyingMaterialExporter on a connection whose session carries this suite"""
+        conn = tlsconnection.TLSConnection(None)
+        conn.session = session_mod.Session()
+        conn.session.cipherSuite = sid
+        conn.session.masterSecret = bytearray(secret)
+        conn.session.exporterMasterSecret = bytearray(secret)
+        conn._clientRandom, conn._serverRandom = bytearray(cr), bytearray(sr)
+        conn._recordLayer._version = ver
+        lab = bytearray(b"EXPORTER-verif")
+        r = safe(conn.keyingMaterialExporter, lab, 40)
+        if r[0] != 'ok':
+            return None
+        out = bytes(r[1])
+        ref = {}
+        if ver == (3, 4):
+            for h in ('sha256', 'sha384'):
+                def f(h=h):
+                    dig = getattr(_hl, h)
+                    e0 = dig(b"").digest()
+                    full = b"tls13 " + bytes(lab)
+                    info = bytes([0, len(e0), len(full)]) + full + bytes([len(e0)]) + e0
+                    t, blk, c = b"", b"", 1
+                    while len(t) < len(e0):
+                        blk = _hm.new(bytes(secret), blk + info + bytes([c]), dig).digest()
+                        t += blk
+                        c += 1
+                    sec = t[:len(e0)]
+                    full2 = b"tls13 exporter"
+                    info2 = bytes([0, 40, len(full2)]) + full2 + bytes([len(e0)]) + e0
+                    t, blk, c = b"", b"", 1
+                    while len(t) < 40:
+                        blk = _hm.new(sec, blk + info2 + bytes([c]), dig).digest()
+                        t += blk
+                        c += 1
+                    return t[:40]
+                ref[h] = f
+        else:
+            ref['md5sha1'] = lambda: mathtls.PRF(secret, lab, cr + sr, 40)
+            ref['sha256'] = lambda: mathtls.PRF_1_2(secret, lab, cr + sr, 40)
+            ref['sha384'] = lambda: mathtls.PRF_1_2_SHA384(secret, lab, cr + sr, 40)
+        hits = [k for k, f in ref.items() if bytes(f()) == out]
+        return hits[0] if len(hits) == 1 else None
+
+    def deprecated_kinds(sid):
+        """the deprecated public helpers calcMasterSecret / calcExtendedMasterSecret / calcFinished at TLS 1.2"""
+        out = []
+        with warnings.catch_warnings():
+            warnings.simplefilter('ignore')
+            hh = mk_hh()
+            cands = {
+                'calcMasterSecret': (lambda: mathtls.calcMasterSecret((3, 3), sid, secret, cr, sr),
+                                     {'sha256': lambda: mathtls.PRF_1_2(secret, b"master secret", cr + sr, 48),
+                                      'sha384': lambda: mathtls.PRF_1_2_SHA384(secret, b"master secret", cr + sr, 48)}),
+                'calcExtendedMasterSecret': (lambda: mathtls.calcExtendedMasterSecret((3, 3), sid, secret, mk_hh()),
+                                             {'sha256': lambda: mathtls.PRF_1_2(secret, b"extended master secret", hh.digest('sha256'), 48),
+                                              'sha384': lambda: mathtls.PRF_1_2_SHA384(secret, b"extended master secret", hh.digest('sha384'), 48)}),
+                'calcFinished': (lambda: mathtls.calcFinished((3, 3), secret, sid, mk_hh(), True),
+                                 {'sha256': lambda: mathtls.PRF_1_2(secret, b"client finished", hh.digest('sha256'), 12),
+                                  'sha384': lambda: mathtls.PRF_1_2_SHA384(secret, b"client finished", hh.digest('sha384'), 12)}),
+            }
+            for name in sorted(cands):
+                f, ref = cands[name]
+                if not hasattr(mathtls, name):
+                    continue
+                r = safe(f)
+                hits = [k for k, g in ref.items() if r[0] == 'ok' and bytes(g()) == bytes(r[1])]
+                out.append((name, hits[0] if len(hits) == 1 else None))
+        return out
+
     rows = {}
     for sid in d['all']:
         r = {}
@@ -253,6 +436,13 @@ def collect():
         r['calc_key_prf'] = [prf_kind(v, sid) for v in VERSIONS[:4]]
         r['tls13'] = tls13_hash(sid) if r['cipher_settings'] is not None and r['cipher_settings'][2] != 'None' else None
         r['ffv'] = [sid in CS.filterForVersion([sid], v, v) for v in VERSIONS]
+        r['keyupdate'] = key_update(sid) if r['tls13'] is not None else None
+        # every secret-deriving use of the suite besides the record keys: calc_key per label x version
+        # ((3,0) + extended master secret is not a defined combination), the exporter, the deprecated helpers
+        r['labels'] = [[None if (v == (3, 0) and lb == b"extended master secret") else label_kind(v, sid, lb)
+                        for lb in LABELS] for v in VERSIONS[:4]]
+        r['exporter'] = [exporter_kind(v, sid) for v in VERSIONS[1:]]
+        r['deprecated'] = deprecated_kinds(sid)
         rows[sid] = r
     d['rows'] = rows
     perm = permissive(hs)
@@ -398,7 +588,17 @@ class SuitesUnit(object):
   r_prf_params : string * Z;                      (* TLSConnection._getPRFParams *)
   r_calc_key_prf : list (option string);          (* PRF mathtls.calc_key really applies, versions (3,0)..(3,3) *)
   r_tls13 : option (string * Z * option string * Z * Z);  (* calcTLS1_3PendingState: HKDF hash, key bytes, cipher name, tag, nonce *)
-  r_ffv : list bool                               (* s in filterForVersion([s], v, v), versions (3,0)..(3,4) *)
+  r_ffv : list bool;                              (* s in filterForVersion([s], v, v), versions (3,0)..(3,4) *)
+  (* RecordLayer._calcTLS1_3KeyUpdate: hash that derived the next traffic secret, its length, hash/length of the
+     new key, hash/length of the new IV (hashes identified by recomputing HKDF-Expand-Label with hashlib/hmac),
+     cipher object name, tag *)
+  r_keyupdate : option (option string * Z * option string * Z * option string * Z * option string * Z);
+  r_ku_roles : list (option string);              (* hash of the secret updated by _sender/_reciever x client/server *)
+  r_labels : list (list (option string));         (* PRF calc_key applies, versions (3,0)..(3,3) x [key expansion; master
+                                                     secret; extended master secret; client finished; server finished];
+                                                     ((3,0), extended master secret) is undefined and emitted as None *)
+  r_exporter : list (option string);              (* keyingMaterialExporter, versions (3,1)..(3,4) *)
+  r_deprecated : list (string * option string)    (* calcMasterSecret / calcExtendedMasterSecret / calcFinished at (3,3) *)
 }.
 ''')
         rows = []
@@ -408,7 +608,8 @@ class SuitesUnit(object):
             ms = r['mac_settings']
             t13 = r['tls13']
             rows.append('{| r_id := %d; r_cipher_settings := %s; r_mac_settings := %s; r_canon_cipher := %s; '
-                        'r_canon_mac := %s; r_prf_params := (%s, %d); r_calc_key_prf := [%s]; r_tls13 := %s; r_ffv := [%s] |}' % (
+                        'r_canon_mac := %s; r_prf_params := (%s, %d); r_calc_key_prf := [%s]; r_tls13 := %s; r_ffv := [%s]; '
+                        'r_keyupdate := %s; r_ku_roles := [%s]; r_labels := [%s]; r_exporter := [%s]; r_deprecated := [%s] |}' % (
                             sid,
                             'None' if cs is None else '(Some (%d, %d, %s))' % (cs[0], cs[1], sl(cs[2])),
                             'None' if ms is None else '(Some (%d, %s))' % (ms[0], osl(ms[1])),
@@ -416,7 +617,15 @@ class SuitesUnit(object):
                             sl(r['prf_params'][0]), r['prf_params'][1],
                             '; '.join(osl(x) for x in r['calc_key_prf']),
                             'None' if t13 is None else '(Some (%s, %d, %s, %d, %d))' % (sl(t13[0]), t13[1], osl(t13[2]), t13[3], t13[4]),
-                            '; '.join('true' if b else 'false' for b in r['ffv'])))
+                            '; '.join('true' if b else 'false' for b in r['ffv']),
+                            'None' if r['keyupdate'] is None else '(Some (%s, %d, %s, %d, %s, %d, %s, %d))' % (
+                                osl(r['keyupdate'][0][0]), r['keyupdate'][0][1], osl(r['keyupdate'][0][2]),
+                                r['keyupdate'][0][3], osl(r['keyupdate'][0][4]), r['keyupdate'][0][5],
+                                osl(r['keyupdate'][0][6]), r['keyupdate'][0][7]),
+                            '' if r['keyupdate'] is None else '; '.join(osl(x) for x in r['keyupdate'][1]),
+                            '; '.join('[' + '; '.join(osl(x) for x in row) + ']' for row in r['labels']),
+                            '; '.join(osl(x) for x in r['exporter']),
+                            '; '.join('(%s, %s)' % (sl(n), osl(k)) for n, k in r['deprecated'])))
         o.append('Definition rows : list suite_row := [\n  %s].\n' % ';\n  '.join(rows))
 
         def per_version(name, table, comment):
